@@ -207,6 +207,7 @@ theorem same_input_same_content (V1 V2 : Verifier) (tbl : List AlgEntry) (w1 w2 
     (a2 : Accepted V2 tbl w2 k now2 rm ctx multi s2 p2 o2 rd2 c2 c2')
     (hd : c1.data = c2.data) :
     s1 = s2 ∧ (∀ i, 2 ≤ i → i < s1 → w1[i]? = w2[i]?)
+      ∧ (newWire w1 s1).drop 2 = (newWire w2 s2).drop 2
       ∧ rd1.originalId = rd2.originalId ∧ rd1.timeSigned = rd2.timeSigned ∧ rd1.fudge = rd2.fudge
       ∧ ((multi = false ∨ ctx = none) → rd1.error = rd2.error ∧ rd1.other = rd2.other) := by
   obtain ⟨h01, _, _, _, _, hd1, _, _⟩ := validateV_ok V1 tbl w1 k o1 rd1 now1 rm s1 ctx multi c1 c1' a1.valid
@@ -270,7 +271,7 @@ theorem same_input_same_content (V1 V2 : Verifier) (tbl : List AlgEntry) (w1 w2 
   obtain ⟨hoid, hdrop⟩ := List.append_inj hmsg (by simp [be_length])
   have hoid' := be2_inj _ _ bo1 bo2 hoid
   obtain ⟨ht, hfu, hrest'⟩ := hrest hr
-  refine ⟨rfl, ?_, hoid', ht, hfu, hrest'⟩
+  refine ⟨rfl, ?_, hdrop, hoid', ht, hfu, hrest'⟩
   -- octet by octet
   have hW : ∀ i, 2 ≤ i → (newWire w1 s1)[i]? = (newWire w2 s1)[i]? := by
     intro i hi
